@@ -3,6 +3,7 @@ package main
 import (
 	"fmt"
 	"go/ast"
+	"go/constant"
 	"go/token"
 	"go/types"
 	"os"
@@ -72,7 +73,8 @@ func runC12(c *Ctx) {
 				continue
 			}
 			rm.field = acc.Field.Sel.Name
-			if be, ok := ast.Unparen(acc.Key).(*ast.BinaryExpr); ok && be.Op == token.ADD {
+			// (a key function — classKey(s) = "class_" + s — is unfolded)
+			if be, ok := ast.Unparen(unfoldKeyFunc(info, p.Types, acc.Key, 0)).(*ast.BinaryExpr); ok && be.Op == token.ADD {
 				if s, ok := constString(info, be.X); ok {
 					rm.pref = s
 				}
@@ -125,7 +127,7 @@ func runC12(c *Ctx) {
 			case *ast.ExprStmt:
 				call, _ = ast.Unparen(st.X).(*ast.CallExpr)
 			}
-			if call == nil || len(call.Args) != 1 {
+			if call == nil || len(call.Args) < 1 {
 				continue
 			}
 			se, ok := ast.Unparen(call.Fun).(*ast.SelectorExpr)
@@ -144,11 +146,32 @@ func runC12(c *Ctx) {
 			if target == nil {
 				continue
 			}
+			// one argument carries the accessor's own parameter (possibly behind a constant prefix); every other
+			// argument is a constant (the kind of item): together they select the key space
 			pref := ""
-			arg := ast.Unparen(call.Args[0])
+			var arg ast.Expr
+			okArgs := true
+			for _, a := range call.Args {
+				a = ast.Unparen(a)
+				if tv, isConst := info.Types[a]; isConst && tv.Value != nil {
+					if tv.Value.Kind() == constant.String {
+						pref += constant.StringVal(tv.Value)
+					} else {
+						pref += tv.Value.ExactString()
+					}
+					continue
+				}
+				if arg != nil {
+					okArgs = false
+				}
+				arg = a
+			}
+			if !okArgs || arg == nil {
+				continue
+			}
 			if be, ok := arg.(*ast.BinaryExpr); ok && be.Op == token.ADD {
 				if sv, ok := constString(info, be.X); ok {
-					pref = sv
+					pref += sv
 					arg = ast.Unparen(be.Y)
 				}
 			}
@@ -692,6 +715,69 @@ func runC12(c *Ctx) {
 			}
 			return true
 		})
+		// … or the context is prepared by a helper of the package: ctx := h.withRegisteredClasses(r.Context()), where the
+		// helper takes the context value of its parameter, records the classes, and returns that context
+		recordsIn := ast.Node(fd.Body)
+		if ctxObj == nil {
+			ast.Inspect(fd.Body, func(n ast.Node) bool {
+				as, ok := n.(*ast.AssignStmt)
+				if !ok || len(as.Lhs) != 1 || len(as.Rhs) != 1 {
+					return true
+				}
+				call, ok := as.Rhs[0].(*ast.CallExpr)
+				if !ok || len(call.Args) != 1 || !strings.Contains(types.ExprString(call.Args[0]), ".Context()") {
+					return true
+				}
+				hfn := calleeOf(info, call)
+				if hfn == nil || hfn.Pkg() != p.Types {
+					return true
+				}
+				for _, hfd := range allFuncDecls(p) {
+					if info.Defs[hfd.Name] != types.Object(hfn) || hfd.Body == nil {
+						continue
+					}
+					prms := paramObjs(info, hfd)
+					if len(prms) != 1 {
+						continue
+					}
+					var hctx, hv types.Object
+					ast.Inspect(hfd.Body, func(m ast.Node) bool {
+						if has, ok := m.(*ast.AssignStmt); ok && len(has.Lhs) == 2 && len(has.Rhs) == 1 {
+							if gc, ok := has.Rhs[0].(*ast.CallExpr); ok && len(gc.Args) == 1 {
+								if gfn := calleeOf(info, gc); gfn != nil && gfn.Name() == "getContext" {
+									if aid, ok := ast.Unparen(gc.Args[0]).(*ast.Ident); ok && info.ObjectOf(aid) == prms[0] {
+										if a, ok := has.Lhs[0].(*ast.Ident); ok {
+											hctx = info.ObjectOf(a)
+										}
+										if b, ok := has.Lhs[1].(*ast.Ident); ok {
+											hv = info.ObjectOf(b)
+										}
+									}
+								}
+							}
+						}
+						return true
+					})
+					returnsCtx := hctx != nil
+					ast.Inspect(hfd.Body, func(m ast.Node) bool {
+						if ret, ok := m.(*ast.ReturnStmt); ok {
+							if len(ret.Results) != 1 {
+								returnsCtx = false
+							} else if rid, ok := ast.Unparen(ret.Results[0]).(*ast.Ident); !ok || info.ObjectOf(rid) != hctx {
+								returnsCtx = false
+							}
+						}
+						return true
+					})
+					if returnsCtx && hv != nil {
+						if lid, ok := as.Lhs[0].(*ast.Ident); ok {
+							ctxObj, vObj, recordsIn = info.ObjectOf(lid), hv, hfd.Body
+						}
+					}
+				}
+				return true
+			})
+		}
 		records, passes := false, false
 		// the class registry: the (map field, key prefix) whose query method is asked about a class ID somewhere in the package
 		classKeys := map[string]bool{}
@@ -710,44 +796,50 @@ func runC12(c *Ctx) {
 				return true
 			})
 		}
-		ast.Inspect(fd.Body, func(n ast.Node) bool {
-			switch n := n.(type) {
-			case *ast.RangeStmt:
-				if strings.HasSuffix(types.ExprString(n.X), ".Classes") {
-					ast.Inspect(n.Body, func(m ast.Node) bool {
-						if call, ok := m.(*ast.CallExpr); ok {
-							if se, ok := call.Fun.(*ast.SelectorExpr); ok {
-								if id, ok := se.X.(*ast.Ident); ok && info.ObjectOf(id) == vObj && len(call.Args) == 1 && strings.HasSuffix(types.ExprString(call.Args[0]), ".ID") {
-									for _, m := range methods {
-										if (!m.query || m.writes) && m.fd.Name.Name == se.Sel.Name && classKeys[m.field+"|"+m.pref] {
-											records = true
+		scanRoots := []ast.Node{fd.Body}
+		if recordsIn != ast.Node(fd.Body) {
+			scanRoots = append(scanRoots, recordsIn)
+		}
+		for _, scanRoot := range scanRoots {
+			ast.Inspect(scanRoot, func(n ast.Node) bool {
+				switch n := n.(type) {
+				case *ast.RangeStmt:
+					if strings.HasSuffix(types.ExprString(n.X), ".Classes") {
+						ast.Inspect(n.Body, func(m ast.Node) bool {
+							if call, ok := m.(*ast.CallExpr); ok {
+								if se, ok := call.Fun.(*ast.SelectorExpr); ok {
+									if id, ok := se.X.(*ast.Ident); ok && info.ObjectOf(id) == vObj && len(call.Args) == 1 && strings.HasSuffix(types.ExprString(call.Args[0]), ".ID") {
+										for _, m := range methods {
+											if (!m.query || m.writes) && m.fd.Name.Name == se.Sel.Name && classKeys[m.field+"|"+m.pref] {
+												records = true
+											}
 										}
 									}
 								}
 							}
-						}
-						return true
-					})
-					// no filter in the loop
-					ast.Inspect(n.Body, func(m ast.Node) bool {
-						switch m.(type) {
-						case *ast.BranchStmt, *ast.ReturnStmt, *ast.IfStmt:
-							records = false
-						}
-						return true
-					})
-				}
-			case *ast.CallExpr:
-				if se, ok := n.Fun.(*ast.SelectorExpr); ok && se.Sel.Name == "ServeHTTP" && len(n.Args) == 2 {
-					if wc, ok := n.Args[1].(*ast.CallExpr); ok && strings.HasSuffix(types.ExprString(wc.Fun), ".WithContext") && len(wc.Args) == 1 {
-						if id, ok := wc.Args[0].(*ast.Ident); ok && info.ObjectOf(id) == ctxObj {
-							passes = true
+							return true
+						})
+						// no filter in the loop
+						ast.Inspect(n.Body, func(m ast.Node) bool {
+							switch m.(type) {
+							case *ast.BranchStmt, *ast.ReturnStmt, *ast.IfStmt:
+								records = false
+							}
+							return true
+						})
+					}
+				case *ast.CallExpr:
+					if se, ok := n.Fun.(*ast.SelectorExpr); ok && se.Sel.Name == "ServeHTTP" && len(n.Args) == 2 {
+						if wc, ok := n.Args[1].(*ast.CallExpr); ok && strings.HasSuffix(types.ExprString(wc.Fun), ".WithContext") && len(wc.Args) == 1 {
+							if id, ok := wc.Args[0].(*ast.Ident); ok && info.ObjectOf(id) == ctxObj {
+								passes = true
+							}
 						}
 					}
 				}
-			}
-			return true
-		})
+				return true
+			})
+		}
 		c.check(records, "C12.R5", key+"|records-every-registered-class", c.pos(fd.Pos()), "every registered class is recorded as rendered in the request's context value",
 			"the CSS middleware does not record every registered class in the context: classes served by the stylesheet would also be inlined")
 		c.check(passes, "C12.R5", key+"|passes-that-context-on", c.pos(fd.Pos()), "the next handler receives the request with that context",
